@@ -118,7 +118,11 @@ func (s *Server) closeListeners() error {
 func (s *Server) closeConns() error {
 	s.mu.Lock()
 	for c := range s.conns {
-		c.Close()
+		if cc, ok := c.(*conn); ok {
+			cc.abort()
+		} else {
+			c.Close()
+		}
 	}
 	s.conns = nil
 	s.mu.Unlock()
@@ -160,6 +164,17 @@ func (c *conn) Write(b []byte) (int, error) {
 }
 
 func (c *conn) Close() error {
+	return c.c.Close()
+}
+
+// abort closes the connection without delay. Closing a TLS connection
+// sends a close_notify alert first which blocks for up to five seconds
+// when the peer has stopped reading and its receive window is full.
+// Closing the transport first makes that write fail at once.
+func (c *conn) abort() error {
+	if tc, ok := c.c.(*tls.Conn); ok {
+		tc.NetConn().Close()
+	}
 	return c.c.Close()
 }
 
